@@ -27,6 +27,10 @@ def gen_ops(rng, d, n, length):
             ln = rng.randrange(1, d)
             src = ({"from": _point(rng, ln, n)} if rng.random() < 0.5 else {"lit": ln})
             ops.append({"k": "assignp", "p": p[:ln], **src})
+        elif rng.random() < 0.06:
+            # in-place scaling through the handle of a partial point (the root itself for an empty prefix):
+            # every non-empty leaf below it is updated where it is — handles held for points below stay valid
+            ops.append({"k": "imulp", "p": p[:rng.randrange(0, d)], "v": rng.choice([2, 3, -1, 0, 1])})
         elif r < 0.28:
             ops.append({"k": "get", "p": p})
         elif r < 0.36:
@@ -101,7 +105,7 @@ def gen(seed, tier):
             # a declared shape — sometimes smaller than coordinates that get written (the library does not
             # check coordinates against it, and point access must not depend on it)
             cfg = {"shape": [rng.choice([n + 1, n + 2, 2, 1])] * d}
-            if not any(o["k"] == "assignp" for o in ops):
+            if not any(o["k"] in ("assignp", "imulp") for o in ops):
                 cfg["fmt"] = [rng.choice("CU") for _ in range(d)]
         elif r4 < 0.4:
             cfg = {"fib0": True}
@@ -239,6 +243,10 @@ def run(case):
                 out = H.snapshot(acc.getPayload(*p))
                 if H.snapshot(src) != src_before:
                     side["assignment_source_unchanged"] = False
+            elif k == "imulp":
+                ref = acc.getPayloadRef(*p) if p else root
+                ref *= op["v"]
+                out = H.snapshot(acc.getPayload(*p)) if p else H.snapshot(root)
             elif k == "posref":
                 out = root.getPositionRef(p[0])
             else:
@@ -263,7 +271,7 @@ def nontrivial(case, verdict):
     if case["op"] == "pos":
         return "start_pos" in t or "found" in t
     ks = [o["k"] for o in case["ops"]]
-    wrote = [i for i, k in enumerate(ks) if k in ("assign", "iadd", "assignp")]
+    wrote = [i for i, k in enumerate(ks) if k in ("assign", "iadd", "assignp", "imulp")]
     read_after = wrote and any(k in ("get", "getd", "getprefix") for k in ks[wrote[0] + 1:])
     return bool(read_after) or "residue" in t
 
